@@ -901,3 +901,114 @@ V('c16-twin-named-timeout', 'C16', 'R16.4', MAILDIRMBX,
           'await wait_on.wait(timeout=_POLL)'),
          (MAILDIRMBX, "__all__ = ['Maildir', 'Message', 'MailboxData', 'MailboxSet']",
           "__all__ = ['Maildir', 'Message', 'MailboxData', 'MailboxSet']\n\n_POLL = 1.0")])
+
+# ---------------------------------------------------------------- C15
+UIDLIST = 'pymap/backend/maildir/uidlist.py'
+SUBS = 'pymap/backend/maildir/subscriptions.py'
+V('c15-revert-tmpdir', 'C15', 'R15.1', MIO,
+  '''        with NamedTemporaryFile('w', dir=os.path.dirname(file_path),
+                                delete=False) as tmp:''',
+  '''        with NamedTemporaryFile('w', delete=False) as tmp:''')
+V('c15-write-in-place', 'C15', 'R15.1', MIO,
+  '''        with NamedTemporaryFile('w', dir=os.path.dirname(file_path),
+                                delete=False) as tmp:
+            self.write(tmp)
+        os.rename(tmp.name, file_path)''',
+  '''        with open(file_path, 'w') as out:
+            self.write(out)''')
+V('c15-subs-direct-write', 'C15', 'R15.1', SUBS,
+  '''    def write(self, fp: IO[str]) -> None:
+        for sub in self._subscribed:
+            fp.write(sub + '\\r\\n')''',
+  '''    def write(self, fp: IO[str]) -> None:
+        for sub in self._subscribed:
+            fp.write(sub + '\\r\\n')
+
+    def save_now(self) -> None:
+        with open(self.get_file(self.path), 'w') as fp:
+            self.write(fp)''')
+V('c15-set-under-read', 'C15', 'R15.2', MAILDIRMBX,
+  '''        async with Subscriptions.with_write(self._path) as subs:''',
+  '''        async with Subscriptions.with_read(self._path) as subs:''')
+V('c15-cleanup-under-read', 'C15', 'R15.2', MAILDIRMBX,
+  '''        keys = await self._get_keys()
+        async with UidList.with_write(self._path) as uidl:
+            for rec in list(uidl.records):''',
+  '''        keys = await self._get_keys()
+        async with UidList.with_read(self._path) as uidl:
+            for rec in list(uidl.records):''')
+V('c15-remove-no-touch', 'C15', 'R15.3', SUBS,
+  '''        self._subscribed.pop(folder, None)
+        self.touch()''', '''        self._subscribed.pop(folder, None)''')
+V('c15-uidlist-set-no-touch', 'C15', 'R15.3', UIDLIST,
+  '''        self._records[rec.uid] = rec
+        self.touch()''', '''        self._records[rec.uid] = rec''')
+V('c15-index-before-file', 'C15', 'R15.4', MAILDIRMBX,
+  '''        async with self.messages_lock.write_lock():
+            maildir_msg = Message.to_maildir(append_msg, recent,
+                                             self.maildir_flags)
+            key = maildir.add(maildir_msg)
+            filename = key + ':' + maildir_msg.get_info()
+        async with UidList.with_write(self._path) as uidl:
+            fields = {'E': str(email_id), 'T': str(thread_id)}
+            new_rec = Record(uidl.next_uid, fields, filename)
+            uidl.next_uid += 1
+            uidl.set(new_rec)''',
+  '''        maildir_msg = Message.to_maildir(append_msg, recent,
+                                         self.maildir_flags)
+        async with UidList.with_write(self._path) as uidl:
+            fields = {'E': str(email_id), 'T': str(thread_id)}
+            new_rec = Record(uidl.next_uid, fields, 'pending')
+            uidl.next_uid += 1
+            uidl.set(new_rec)
+        async with self.messages_lock.write_lock():
+            key = maildir.add(maildir_msg)
+            filename = key + ':' + maildir_msg.get_info()''')
+V('c15-return-inside-block', 'C15', 'R15.4', MAILDIRMBX,
+  '''            new_rec = Record(uidl.next_uid, record.fields, dest_filename)
+            uidl.next_uid += 1
+            uidl.set(new_rec)
+        return new_rec.uid''',
+  '''            new_rec = Record(uidl.next_uid, record.fields, dest_filename)
+            uidl.next_uid += 1
+            uidl.set(new_rec)
+            return new_rec.uid''')
+V('c15-flag-copy-delete', 'C15', 'R15.5', MAILDIRMBX,
+  '''            os.rename(old_path, new_path)
+            self._update(key, new_subpath)''',
+  '''            shutil.copyfile(old_path, new_path)
+            os.remove(old_path)
+            self._update(key, new_subpath)''')
+V('c15-revert-lock-release', 'C15', 'R15.6', MIO,
+  '''        try:
+            self._exists = cls.file_exists(path)
+            self._obj = obj = cls.file_read(path)
+        except BaseException:
+            await self._release_lock()
+            raise''', '''        self._exists = cls.file_exists(path)
+        self._obj = obj = cls.file_read(path)''')
+# twins
+V('c15-twin-finally-flag', 'C15', 'R15.6', MIO,
+  '''        try:
+            self._exists = cls.file_exists(path)
+            self._obj = obj = cls.file_read(path)
+        except BaseException:
+            await self._release_lock()
+            raise
+        obj._watched = True
+        return obj''', '''        entered = False
+        try:
+            self._exists = cls.file_exists(path)
+            self._obj = obj = cls.file_read(path)
+            obj._watched = True
+            entered = True
+            return obj
+        finally:
+            if not entered:
+                await self._release_lock()''', expect='silent')
+V('c15-twin-mkstemp', 'C15', 'R15.1', MIO,
+  '''        with NamedTemporaryFile('w', dir=os.path.dirname(file_path),
+                                delete=False) as tmp:''',
+  '''        target_dir = os.path.dirname(file_path)
+        with NamedTemporaryFile('w', dir=target_dir, delete=False) as tmp:''',
+  expect='silent')
